@@ -47,6 +47,9 @@ def replay_two_calls():
     return {'input': "get_lexer_parser('mindsdb') twice", 'fires': shared, 'observed': 'same lexer/parser object returned twice' if shared else 'distinct objects', 'expected': 'fresh objects per call'}
 
 
+from vlib.statecensus import memo_probe as _memo_probe
+
+
 def fresh_obligations(rep):
     fn = 'mindsdb_sql:get_lexer_parser'
     for dname in ('sqlite', 'mysql', 'mindsdb', 'other'):
@@ -245,7 +248,18 @@ def global_state_census(rep):
                     if any(k in dn for k in ('lru_cache', 'functools.cache', 'cached_property')) or dn in ('cache', 'cache()'):
                         memo.append(f'{m}:{fn.name} @{dn}')
     if memo:
-        rep.undecided('C20.globals.memo', 'frames', f'memoised functions (shared results, not covered by the frame argument): {memo[:5]}: contract needs review', function='(whole repository)')
+        shared = _memo_probe(memo)
+        bad = [x for x in shared if x[1] == 'shared-mutable']
+        und = [x for x in shared if x[1] == 'unknown']
+        if bad:
+            name, _, args, what = bad[0]
+            rep.failed('C20.globals.memo', 'frames', f'{name} is memoised and hands the same mutable object to every caller: {what}', function=name.split(' @')[0],
+                       clause='no mutable result is memoised across calls',
+                       replay={'input': f'{name.split(" @")[0]}{args} called twice', 'fires': True, 'observed': what, 'expected': 'a fresh (or immutable) result per call'})
+        elif und:
+            rep.undecided('C20.globals.memo', 'frames', f'memoised functions (shared results, not covered by the frame argument): {[x[0] for x in und][:5]}: contract needs review', function='(whole repository)')
+        else:
+            rep.proved('C20.globals.memo', 'frames', f'memoised functions return immutable values only: {[x[0] for x in shared][:5]}', function='(whole repository)', clause='no mutable result is memoised across calls')
     else:
         rep.proved('C20.globals.memo', 'frames', 'no lru_cache / cache / cached_property decorator in mindsdb_sql', function='(whole repository)', clause='no result is memoised across calls')
     # stores into generated tables
@@ -537,6 +551,10 @@ from mindsdb_sql.render.sqlalchemy_render import SqlalchemyRender
 inputs = json.load(open(sys.argv[2]))
 order = list(range(len(inputs)))
 random.Random(int(sys.argv[3])).shuffle(order)
+# the inputs of one dialect (a different one per process) go first: they are evaluated before the other dialects' lexers / parsers have been imported
+# or used, and again at the end, after everything else
+first = ['sqlite', 'mysql', 'mindsdb'][int(sys.argv[3]) % 3]
+order.sort(key=lambda i: inputs[i][1] != first)
 
 
 def evaluate(sql, dialect):
@@ -581,7 +599,10 @@ def bounded(rep, tier):
         if len(toks) > 2:
             bad.append((' '.join(toks[:-1]), dn))
             bad.append((' '.join(toks[:1] + toks[2:]), dn))
-    inputs = good + bad + [('select a from t', 'mysql'), ('select a from', 'mysql'), ('select a from t', 'sqlite'), ('CREATE TABLE int1.tbl (a int, b text)', 'mindsdb'), ('DROP TABLE int1.tbl', 'mindsdb'),
+    lit = ["select 'a\\\"b', \"it\\'s\" from t", "select 'it''s', \"q\"\"q\" from t", "select `a b`.`c` from `t 1`", "select @v, @'w x', @@g from t", "select 'a\\\\b', 'tab\\tnl\\n' from t",
+           "select 1.5, 0x1F, -2, 1e3 from t", "select a /* c1 */, b -- c2\n from t", "select \"Col\" as \"Al ias\" from t"]
+    others = [(sql, dn) for dn in ('mysql', 'sqlite') for n, sql in corpus.production_sentences(dn)][:: (6 if tier == 'quick' else 2)]
+    inputs = good + bad + others + [(x, dn) for dn in ('sqlite', 'mysql', 'mindsdb') for x in lit] + [('select a from t', 'mysql'), ('select a from', 'mysql'), ('select a from t', 'sqlite'), ('CREATE TABLE int1.tbl (a int, b text)', 'mindsdb'), ('DROP TABLE int1.tbl', 'mindsdb'),
                            ('CREATE TABLE tbl (a int)', 'mindsdb'), ('CREATE TABLE tbl (b int, c int)', 'mindsdb'), ('DROP TABLE tbl', 'mindsdb'), ('INSERT INTO tbl (a) VALUES (1)', 'mindsdb'), ('UPDATE tbl SET a = 1', 'mindsdb')]
     tmp = tempfile.mkdtemp(prefix='vc20_')
     try:
